@@ -32,6 +32,12 @@ def run_common(tier, pid, mode):
     n = {"quick": 60, "thorough": 800}[tier]
     vf.run_harness(binpath, ["target", "gen", "--seed", vf.seed(), "--tier", tier, "--n", n, mode], stdout_path=cases)
     nrec, nhist, bad = vf.exec_and_validate(chk, binpath, "target", "TV_Target", cases, jvms=10, what="scene")
+    if mode == "c06":
+        # one render call of more than 2^16 triangles (most of them cover no pixel centre)
+        big = os.path.join(d, "bigcall.ndjson")
+        vf.run_harness(binpath, ["target", "gen", "--seed", vf.seed(), "--tier", tier, "bigcall"], stdout_path=big)
+        nb, _, _ = vf.exec_and_validate(chk, binpath, "target", "TV_TargetBig", big, jvms=1, what="very large call")
+        nhist += nb
     chk.cov["traces_validated_against_impl"] = nhist
     chk.cov["scenes"] = nrec
     chk.cov["distinct_nontrivial"] = nhist
